@@ -357,6 +357,16 @@ func init() {
 			for i := 0; i < na; i++ {
 				jobs = append(jobs, Job{Variant: "asan", Mode: "db.c04", Args: js(map[string]interface{}{"Histories": ha, "Level": 1, "Targeted": i == 0})})
 			}
+			// the same property at the text-protocol boundary (several connections on the real server loop)
+			npp, hpp := 3, 12
+			if tier == "thorough" {
+				npp, hpp = 12, 100
+			}
+			for i := 0; i < npp; i++ {
+				jobs = append(jobs, Job{Variant: "plain", Mode: "db.c04p", Args: js(map[string]interface{}{"Histories": hpp, "Level": 1 + i%2})})
+			}
+			jobs = append(jobs, Job{Variant: "race", Mode: "db.c04p", Args: js(map[string]interface{}{"Histories": hpp / 2, "Level": 1})})
+			jobs = append(jobs, Job{Variant: "asan", Mode: "db.c04p", Args: js(map[string]interface{}{"Histories": hpp / 2, "Level": 1})})
 			return jobs
 		},
 	})
